@@ -1,12 +1,13 @@
 """C01 - reliable ordered stream: the reader sees a prefix of what was written (raw endpoints)."""
 import kcp_common as K
+import sess_common as S
 
 META = {
     "enabled": True,
     "engine": "kcp",
     "technique": "Coq invariant proof over all event lists of a two-endpoint system with monotone wire history (sender ghost numbering + receiver ghost, composed) + differential replay + prefix oracle",
     "level_text": "Machine-checked for the raw endpoints: for every finite list of events (arbitrary API calls with arbitrary arguments and clock values on both sides; the reader's Input fed any datagram the writer emitted earlier, any number of times, in any order, or never; the writer's Input fed anything) the bytes (stream mode) resp. messages with their boundaries (message mode) returned by Recv are a prefix of what Send accepted, provided fewer than 2^31-2^16 segments were numbered; every datagram ever emitted carries under each sequence number the payload that number was given (retransmissions included); re-feeding any genuine datagram (duplicate, FEC-recovered) keeps the receiver invariant. Tied to kcp.go by replaying lossy/duplicating/reordering histories of two real cores in the extracted model and by a prefix oracle after every Recv, incl. all fate assignments for the first K datagrams.",
-    "level_note": K.TRUST + " The session layer (WriteBuffers chunking, Read carry-over, cipher/FEC transparency) is covered by the frame/gate/fec engines' differential runs with a stream content oracle, not by this theorem; interleavings with library goroutines are serialised by the session mutex (C14).",
+    "level_note": K.TRUST + " The session glue (WriteBuffers chunking at mss, Read carry-over) is modelled in coq/sess and composed with the raw-endpoint theorem (c01_session_prefix: bytes returned by the reader session's reads are a prefix of the bytes accepted by the writer session's writes, for every run); cipher/FEC transparency is covered by the frame/gate/fec engines (C06-C09), not composed into one theorem; interleavings with library goroutines are serialised by the session mutex (C14).",
 }
 OBLIGATIONS = ["c01_stream_prefix", "c01_message_prefix", "c01_run_safe", "c01_wire_genuine", "c01_fec_idempotent"]
 RELEVANT = {"send-result", "recv-result", "input-result", "flush-result", "update-result", "sq", "rq", "rb", "rnxt", "sb", "una", "nxt"} | K.PANICS
@@ -15,6 +16,7 @@ RELEVANT = {"send-result", "recv-result", "input-result", "flush-result", "updat
 def run(ctx):
     K.core_check(ctx, "C01", "C01.v", OBLIGATIONS, RELEVANT,
                  "kcp.go vs coq/kcp/Kcp.v on lossy/duplicating/reordering two-endpoint histories")
+    S.session_part(ctx, "C01")
     ctx.coverage["rule"] = ("all 4^K fate vectors (deliver/drop/duplicate/hold-behind-next) for the first K datagrams of a 4-message transfer in both modes, then a healed network; "
                             "random histories with 15-40 % loss, duplication, reordering, FEC-style non-regular re-delivery; prefix oracle after every Recv; "
                             "non-trivial = a retransmission plus a duplicate or out-of-order delivery occurred and data was read")
